@@ -148,7 +148,7 @@ impl Parser {
     //@  requires old(self).code().len() < 0x4000_0000_0000_0000
     //@  assert @loop_jumps_back_to_the_condition after_stmt "self.emit_loop(loop_start)" self.targets[self.code().len() - 2] == old(self).code().len() && self.code()[self.code().len() - 3] == opcode_byte(OpCode::Loop)
     //@  assert @false_condition_leaves_the_loop_behind_the_back_jump after_stmt "self.patch_jump(exit_jump)" self.targets[exit_jump as int] == self.code().len() && self.code()[self.code().len() - 3] == opcode_byte(OpCode::Loop) && self.code()[exit_jump + 2] == opcode_byte(OpCode::Pop) && self.code()[exit_jump - 1] == opcode_byte(OpCode::JumpIfFalse)
-    //@  assert @loop_exit_drops_the_condition before_stmt "match self.compiler_mut().pop_loop()" self.code()[self.targets[exit_jump as int]] == opcode_byte(OpCode::Pop) && self.code().len() == self.targets[exit_jump as int] + 1
+    //@  assert @loop_exit_drops_the_condition after_stmt "self.emit_byte(opcode_u8(OpCode::Pop))#2" self.code()[self.targets[exit_jump as int]] == opcode_byte(OpCode::Pop) && self.code().len() == self.targets[exit_jump as int] + 1
     //@end
 
     // for v in E { B }:   Nil  E  Invoke iter 0   L: IterNext  SetLocal v  JumpIfStopIter→X  Pop  B  Loop→L   X: Pop
@@ -161,7 +161,7 @@ impl Parser {
     //@  assert @each_iteration_asks_the_iterator_and_stores_the_value_in_the_loop_variable before_stmt "self.emit_byte(opcode_u8(OpCode::Pop))#1" self.code().len() == loop_start + 6 && self.code()[loop_start as int] == opcode_byte(OpCode::IterNext) && self.code()[loop_start + 1] == opcode_byte(OpCode::SetLocal) && self.code()[loop_start + 2] == loop_var as u8 && self.code()[loop_start + 3] == opcode_byte(OpCode::JumpIfStopIter) && exit_jump == loop_start + 4
     //@  assert @loop_jumps_back_to_the_iterator_step after_stmt "self.emit_loop(loop_start)" self.targets[self.code().len() - 2] == loop_start && self.code()[self.code().len() - 3] == opcode_byte(OpCode::Loop) && self.code()[loop_start as int] == opcode_byte(OpCode::IterNext)
     //@  assert @exhausted_iterator_leaves_the_loop_behind_the_back_jump after_stmt "self.patch_jump(exit_jump)" self.targets[exit_jump as int] == self.code().len() && self.code()[self.code().len() - 3] == opcode_byte(OpCode::Loop) && self.code()[exit_jump + 2] == opcode_byte(OpCode::Pop)
-    //@  assert @loop_exit_drops_the_stop_value before_stmt "match self.compiler_mut().pop_loop()" self.code()[self.targets[exit_jump as int]] == opcode_byte(OpCode::Pop) && self.code().len() == self.targets[exit_jump as int] + 1
+    //@  assert @loop_exit_drops_the_stop_value after_stmt "self.emit_byte(opcode_u8(OpCode::Pop))#2" self.code()[self.targets[exit_jump as int]] == opcode_byte(OpCode::Pop) && self.code().len() == self.targets[exit_jump as int] + 1
     //@end
 
     // A and B:   A  JumpIfFalse→END  Pop  B  END:   (a falsey A is the result: JumpIfFalse leaves it on the stack)
